@@ -316,6 +316,8 @@ def run_tasks(tasks, nproc, mod):
     pending = list(tasks)
     running = {}
     results = []
+    cpu_marks = {}
+    killed_for_cpu = set()
 
     def dead(task, proc):
         comp = mod.COMPONENTS[task[1]]
@@ -328,7 +330,12 @@ def run_tasks(tasks, nproc, mod):
             with open(path) as f:
                 case_text = f.read()
             os.unlink(path)
-        if case_text and getattr(mod, 'WORKER_DEATH_IS_VIOLATION', False):
+        if case_text and proc.pid in killed_for_cpu:
+            r['failures']['cpu-time'] = {
+                'count': 1, 'case': case_text,
+                'message': 'decoding this one case used more than %d s of CPU time '
+                           '(the worker was stopped)' % mod.CPU_SECONDS_PER_CASE}
+        elif case_text and getattr(mod, 'WORKER_DEATH_IS_VIOLATION', False):
             r['failures']['worker-died:exit=%s' % proc.exitcode] = {
                 'count': 1, 'case': case_text,
                 'message': 'worker process died (exit code %s) while evaluating '
@@ -349,6 +356,25 @@ def run_tasks(tasks, nproc, mod):
             running[p] = (parent, t)
         mpc.wait([c for c, _ in running.values()] +
                  [p.sentinel for p in running], timeout=5)
+        if getattr(mod, 'CPU_SECONDS_PER_CASE', None):
+            # C08 backstop for work that executes no pamqp lines (e.g. a C-level regex):
+            # a worker that burns more than the limit of *CPU time* on one in-flight case
+            # is stopped; dead() turns the in-flight case into the violation
+            for p in list(running):
+                path = inflight_path(p.pid)
+                try:
+                    stamp = os.stat(path).st_mtime_ns
+                    with open('/proc/%d/stat' % p.pid) as f:
+                        parts = f.read().rsplit(')', 1)[1].split()
+                    cpu = (int(parts[11]) + int(parts[12])) / os.sysconf('SC_CLK_TCK')
+                except (OSError, IndexError, ValueError):
+                    continue
+                seen = cpu_marks.get(p.pid)
+                if seen is None or seen[0] != stamp:
+                    cpu_marks[p.pid] = (stamp, cpu)
+                elif cpu - seen[1] > mod.CPU_SECONDS_PER_CASE:
+                    killed_for_cpu.add(p.pid)
+                    p.kill()
         for p in list(running):
             conn, t = running[p]
             got = None
@@ -425,7 +451,7 @@ def _run_hyp(comp, rec, comp_idx, shard, nshards, tier, seed, known_patterns,
             raise ShrinkTimeout()
 
         old = signal.signal(signal.SIGVTALRM, on_timer)
-        signal.setitimer(signal.ITIMER_VIRTUAL, shrink_s)
+        signal.setitimer(signal.ITIMER_VIRTUAL, shrink_s, 1.0)   # repeats until cancelled
         try:
             shrinkit()
         except ShrinkTimeout:
